@@ -190,7 +190,7 @@ pub fn class_sequence(index: u64, max_len: u32) -> String {
 pub const SOUP_TOKENS: &[&str] = &[
     "5", "10", "3.5", "a", "b", "x", "$", "$?", "$!", "()", "+", "-", "*", "/", "//", "%", "**", "++", "--", "!", "&", "|", "^", "<<", ">>", "&&", "||", "^^", "!!", "??", "=", ",", ".", "_.", "._", ".|", "~~", "<~",
     "~>", "~", "^~", "#", "~#", "#=", "==", "!=", "<", "<=", ">", ">=", "<>", "..", ">..", "..<", ">..<", "?>", "!>", "|>", "(", ")", "{", "}", "[", "]", ";", ";;", "\n\n", "\n", " ", "  ", "\t", "`f`", "f`", "`f", "@a",
-    "@@ c\n", "\"s\"", "\"\"", "'b'", ":s", ":", "1e999", "2147483647", "0", "\"é\"",
+    "@@ c\n", "\"s\"", "\"\"", "''", "'''1 2'''", "'b'", ":s", ":", "1e999", "2147483647", "0", "\"é\"",
 ];
 
 /// random token soup up to `max` tokens
